@@ -19,7 +19,8 @@ class Monitor:
         self.procs = procs          # ns -> dict(app, seq, wait_exit, required)
         self.apps = apps            # app -> dict(seq, sfs)
         self.status = {ns: 'idle' for ns in procs}
-        self.required_failed = {}   # app -> True once a required process failed to start
+        self.required_failed = {}   # app -> lowest start_sequence at which a required process failed to start
+        self.unplaced = set()       # required processes given up before any request (nobody can take them)
         self.stops_after_failure = {}
 
     def finished(self, ns):
@@ -77,6 +78,7 @@ class Monitor:
             self.status[ns] = 'failed'
             if d['required']:
                 self._required_failure(d)
+                self.unplaced.add(ns)
             return
         if self.status[ns] not in ('requested', 'starting'):
             return
@@ -212,13 +214,12 @@ def run(src, napps=1, nprocs=2, behaviours=BEHAVIOURS, rounds=9, auto=True, loss
         if mon.required_failed.get(app_name) is not None and ad['sfs'] == 'STOP' and not never_exits:
             src.reach('stop-strategy')
             running = [n for n, p in core.context.applications[app_name].processes.items() if p.running()]
-            # finding F24b: a required process that nobody can take ('No resource available') fails synchronously while
-            # its start_sequence group is being requested; the processes of the same group requested after it escape
-            unplaceable = [d['seq'] for ns, d in procs.items() if d['app'] == app_name and d['required']
-                           and beh[ns] == 'no_resource' and d['seq'] > 0]
-            sibling = any(d['app'] == app_name and d['seq'] in unplaceable and beh[ns] != 'no_resource'
-                          and d['seq'] == min(x['seq'] for x in procs.values() if x['app'] == app_name and x['seq'] > 0)
-                          for ns, d in procs.items())
+            # finding F24b: a required process that nobody can take ('No resource available': disabled, or its only host
+            # lost) fails synchronously while its start_sequence group is being requested; the processes of the same
+            # group that are requested all the same escape the STOP
+            sibling = any(procs[u]['app'] == app_name and d['app'] == app_name and ns != u
+                          and d['seq'] == procs[u]['seq'] and mon.status[ns] != 'idle'
+                          for u in mon.unplaced for ns, d in procs.items())
             sig = 'STOP:unplaceable-required-process-with-a-sibling-of-its-sequence' if sibling else 'STOP'
             src.check('stop-strategy-stops-the-application', not running, sig=sig, running=running)
     src.check('no-internal-error', not core.logger.tracebacks(), log=core.logger.tracebacks()[:1])
